@@ -13,6 +13,11 @@ use syntree::Span;
 #[non_exhaustive]
 pub(crate) struct CompoundError;
 
+/// The largest power a unit can be raised to. Powers are kept well inside the
+/// range of `i32` so that the arithmetic done on them (derived units expanded
+/// into base units, prefixes scaled by the power) cannot overflow.
+pub(crate) const MAX_POWER: i32 = 1 << 20;
+
 /// The data for a base.
 #[derive(Debug, Clone, Copy, PartialEq, Eq, PartialOrd, Ord, Hash, Serialize, Deserialize)]
 pub struct State {
@@ -125,10 +130,18 @@ impl Compound {
     }
 
     /// Raise the unit to the given integer power.
-    pub(crate) fn pow(&self, power: i32) -> Self {
+    pub(crate) fn pow(&self, power: i32) -> Result<Self, CompoundError> {
         self.names
             .iter()
-            .map(|(unit, state)| (*unit, (state.power * power, state.prefix)))
+            .map(|(unit, state)| {
+                let power = i64::from(state.power) * i64::from(power);
+
+                if power.abs() > i64::from(MAX_POWER) {
+                    return Err(CompoundError);
+                }
+
+                Ok((*unit, (power as i32, state.prefix)))
+            })
             .collect()
     }
 
@@ -302,6 +315,11 @@ impl Compound {
             .chain(rhs_der.into_iter().map(|(u, p)| (u, p, n)));
 
         reconstruct(der, lhs, &mut names)?;
+
+        if names.values().any(|s| s.power.abs() > MAX_POWER) {
+            return Err(CompoundError);
+        }
+
         return Ok(Compound::new(names));
 
         /// Reconstruct names.
